@@ -28,6 +28,10 @@ CHECKS = {
    technique="deterministic simulation with a tuning-knob swarm: each seeded case is run under 8-14 storage/ring/measurement/observer configurations of the real engines and compared with the reference machine",
    text="seeded exploration of the knob space (flat window at every segment edge and executed op +-1, forced paged, failed flat allocation, ring lengths, measurement loop, observer on/off) over geometry-biased images (page edges, same cache slot, window straddles, far segments, top of the address space, the w=64 fill constant)",
    note="trusted: reference machine, gcc -O2 build; the MSVC build and 32-bit size_t are not explored"),
+ "C19": dict(engine="enginesim", category="exploration", design="5.8", timeout=(300, 2400),
+   technique="deterministic simulation: the device is a second party taking turns with the program - a seeded script of in-segment memory reads/writes per device call, executed in lock-step by the reference machine; the real InMemoryScreen/PcIO/KeyboardIO stack driven by generated command-stream programs and compared with a reference decoder",
+   text="seeded exploration of device schedules (which call touches which in-segment address with which value) x engines x storage modes; valid and malformed screen command streams at w in {16,32,64}",
+   note="trusted: reference machine and reference screen decoder; device writes outside segments are out of scope by the statement; pygame is not installed, PcIO is assembled from its real headless components"),
  "C18": dict(engine="enginesim", category="fault_enumeration", design="5.7", timeout=(300, 2400),
    technique="deterministic simulation with fault injection: the scripted device fails at every IO call index of each sampled run (library IO error, EOF, foreign exception, KeyboardInterrupt, BaseException, bad __bool__), plus pending-SIGINT injection at chosen bytecode instructions / IO calls; oracle = reference machine stopped at the micro-step",
    text="per sampled program the failing call index is enumerated completely (<=48 calls) with two fault kinds per index on native (flat/paged/ring), fast and featured; programs are sampled",
